@@ -25,7 +25,8 @@ RULE = ("round trip + two-way differential against the reference for every plain
         "(enumerated) and generated lengths up to 64 KiB (1 MiB thorough) biased to multiples of 16 +-1 with generated keys; "
         "tampering: for lengths {0,1,15,16,17,31,32,33,48} every byte position of ciphertext||tag x masks {01,80,ff}, every "
         "truncation length, every key byte x masks {01,80}, each other media kind (enumerated), plus generated tamper cases. "
-        "Non-trivial = plaintext length is a multiple of 16 (incl. 0) or the case is a tamper case. Distinct = distinct "
+        "Shared object: 2-3 tasks of the deterministic scheduler (1-2 calls each: encrypt, decrypt, decrypt of a ciphertext made with another key and kind) use ONE MediaCipher, preempted at generated line/call yield points inside mediacipher.py (complete for one preemption and six pairs of calls); every result is compared with the reference. "
+        "Non-trivial = plaintext length is a multiple of 16 (incl. 0) or the case is a tamper case, or a shared-object case with at least one preemption. Distinct = distinct "
         "canonical JSON; aggregate enumerations count their distinct inner executions.")
 ASSUMPTIONS = [
     "the `cryptography` AES-CBC primitive and stdlib hmac/hashlib are trusted",
